@@ -1004,6 +1004,23 @@ func (c *Ctx) inlineBoolGuards(info *types.Info, list []ast.Stmt) []ast.Stmt {
 			out = append(out, s)
 			continue
 		}
+		// what replaces `return false`: the guarded statements, which must leave the iteration
+		// afterwards (they end in a branch, or the guard is the last statement of the loop body)
+		guarded := is.Body.List
+		endsInBranch := false
+		if ng := len(guarded); ng > 0 {
+			switch guarded[ng-1].(type) {
+			case *ast.BranchStmt, *ast.ReturnStmt:
+				endsInBranch = true
+			}
+		}
+		if !endsInBranch {
+			if s != list[len(list)-1] {
+				out = append(out, s)
+				continue
+			}
+			guarded = append(append([]ast.Stmt{}, guarded...), &ast.BranchStmt{TokPos: is.End(), Tok: token.CONTINUE})
+		}
 		cl := &astCloner{info: info, sub: sub}
 		var conv func(list []ast.Stmt, top bool) ([]ast.Stmt, bool)
 		conv = func(list []ast.Stmt, top bool) ([]ast.Stmt, bool) {
@@ -1016,7 +1033,7 @@ func (c *Ctx) inlineBoolGuards(info *types.Info, list []ast.Stmt) []ast.Stmt {
 					}
 					switch exprString(x.Results[0]) {
 					case "false":
-						res = append(res, is.Body.List...)
+						res = append(res, guarded...)
 					case "true":
 						if !top || k != len(list)-1 {
 							return nil, false
@@ -1076,4 +1093,79 @@ func (c *Ctx) inlineBoolGuards(info *types.Info, list []ast.Stmt) []ast.Stmt {
 		out = append(out, body...)
 	}
 	return out
+}
+
+// lockPairing: every Lock()/RLock() taken in a function of the package is released on every way
+// out of it (go/cfg may-analysis started at the lock call: no exit is reachable before an
+// Unlock()/RUnlock() of the same mutex was executed or deferred). A mutex that stays locked
+// blocks the next worker for ever.
+func (c *Ctx) lockPairing(rule string, rels ...string) {
+	run := c.Run
+	n := 0
+	unlockName := map[string]string{"Lock": "Unlock", "RLock": "RUnlock"}
+	for _, rel := range rels {
+		pk := c.P.Pkg(rel)
+		if pk == nil {
+			continue
+		}
+		info := pk.TypesInfo
+		syncCall := func(m ast.Node) (recv, kind string) {
+			call, ok := m.(*ast.CallExpr)
+			if !ok {
+				return "", ""
+			}
+			if !strings.HasPrefix(calleeName(info, call), "sync.") {
+				return "", ""
+			}
+			sel, ok := call.Fun.(*ast.SelectorExpr)
+			if !ok {
+				return "", ""
+			}
+			return exprString(sel.X), sel.Sel.Name
+		}
+		for _, f := range pk.Syntax {
+			if strings.HasSuffix(c.P.Fset.Position(f.Pos()).Filename, "_test.go") {
+				continue
+			}
+			for _, d := range f.Decls {
+				fd, ok := d.(*ast.FuncDecl)
+				if !ok || fd.Body == nil {
+					continue
+				}
+				fname := rel + "." + fd.Name.Name
+				if fd.Recv != nil && len(fd.Recv.List) == 1 {
+					fname = rel + ".(" + typeExprName(fd.Recv.List[0].Type) + ")." + fd.Name.Name
+				}
+				var locks []*ast.CallExpr
+				ast.Inspect(fd.Body, func(nd ast.Node) bool {
+					if _, isLit := nd.(*ast.FuncLit); isLit {
+						return false
+					}
+					if _, isDefer := nd.(*ast.DeferStmt); isDefer {
+						return false
+					}
+					if call, ok := nd.(*ast.CallExpr); ok {
+						if _, kind := syncCall(call); unlockName[kind] != "" {
+							locks = append(locks, call)
+						}
+					}
+					return true
+				})
+				for _, lc := range locks {
+					recv, kind := syncCall(lc)
+					want := unlockName[kind]
+					n++
+					bad := exitsWithout(fd.Body,
+						func(m ast.Node) bool { return m == ast.Node(lc) },
+						func(m ast.Node) bool { r2, k2 := syncCall(m); return r2 == recv && k2 == want },
+						nil)
+					run.Oblige(len(bad) == 0)
+					if len(bad) > 0 {
+						c.violate(rule, fname, recv+"."+kind, bad[0], recv+"."+kind+"() taken in "+fd.Name.Name+" is still held at this way out (no "+want+"() executed or deferred on the path): the next caller blocks for ever")
+					}
+				}
+			}
+		}
+	}
+	run.Count("lock_sites", n)
 }
